@@ -32,7 +32,7 @@ def configs(ctx):
           ('crash_d4', speca.constants(MaxDepth=4, MaxId=3, MaxCount=2, MaxDeliver=2, Clients={'w1'}, Params={'p1'}, Meas={'m1'}, Vals={'v1'}, Recycle='always',
                                        Kinds=CK - {'StopTrial', 'SetStudyState'}), 0.15),
           ('crash_suggest_d4', speca.constants(MaxDepth=4, MaxId=4, MaxCount=3, MaxDeliver=3, Params={'p1'}, Meas={'m1'}, Recycle='always', AlgoMeta=True,
-                                               Kinds={'CreateStudy', 'SuggestTrials', 'CreateTrial', 'CompleteTrial'}), 0.012)]
+                                               Kinds={'CreateStudy', 'SuggestTrials', 'CreateTrial', 'CompleteTrial'}), 0.04)]
 
 
 def tlc_crash(name, consts, d):
@@ -307,7 +307,7 @@ def run(ctx, only=None):
       ctx.log('config %s: TLC %d distinct / %d scenarios (prefix + interrupted call), %d with a multi-step chain; model invariants hold; '
               'PostCrashUsable on the model: %s' % (name, res.distinct, len(recs), multi, 'VIOLATED (F12)' if model_unusable else 'holds'))
       # all multi-step scenarios, a seeded sample of the atomic ones
-      chosen = [(i, r) for i, r in enumerate(recs) if len(r['chain']) > 2 and rng.random() < (max(frac, 0.5) if ctx.thorough else frac)] + \
+      chosen = [(i, r) for i, r in enumerate(recs) if len(r['chain']) > 2 and rng.random() < (max(frac, 0.5) if ctx.thorough and multi <= 4000 else frac)] + \
                [(i, r) for i, r in enumerate(recs) if len(r['chain']) == 2 and rng.random() < frac] + \
                [(i, r) for i, r in enumerate(recs) if len(r['chain']) == 1 and rng.random() < frac / 4]
       candidates = []
@@ -357,7 +357,7 @@ def run(ctx, only=None):
   cov['rule'] = ('one evaluation = one (prefix, interrupted call, crash point) executed on an SQLite file: the file image at the point is reopened by a fresh '
                  'servicer; distinct_nontrivial counts distinct (prefix, call) scenarios')
   cov['exhaustive'] = False
-  cov['exhaustive_note'] = 'every statement/commit/return point of each crashed scenario; scenarios are a seeded sample of all model transitions (all multi-step ones in thorough)'
+  cov['exhaustive_note'] = 'every statement/commit/return point of each crashed scenario; scenarios are a seeded sample of all model transitions (in thorough at least half of the multi-step ones of every config with at most 4000 of them)'
   ctx.assumptions += ['process death only (no power loss / fsync reordering): the crash image is the database file plus its rollback journal at the point',
                       'DELETE journal mode (SQLite default), single server process']
 
